@@ -289,6 +289,28 @@ theorem answerOrder_matches (ts : List TrxView) (secs : List Media) (used : List
           · simp only [Bool.and_eq_true, decide_eq_true_eq] at hp; exact hp.2
     · cases h
 
+theorem zipAll_and_left (P Q : Media → Media → Bool) (os as : List Media)
+    (h : zipAll (fun o s => P o s && Q o s) os as = true) : zipAll P os as = true := by
+  induction os generalizing as with
+  | nil => cases as <;> simp_all [zipAll]
+  | cons o os ih =>
+    cases as with
+    | nil => simp [zipAll] at h
+    | cons s ss =>
+      simp only [zipAll, Bool.and_eq_true] at h ⊢
+      exact ⟨h.1.1, ih ss h.2⟩
+
+theorem zipAll_and_right (P Q : Media → Media → Bool) (os as : List Media)
+    (h : zipAll (fun o s => P o s && Q o s) os as = true) : zipAll Q os as = true := by
+  induction os generalizing as with
+  | nil => cases as <;> simp_all [zipAll]
+  | cons o os ih =>
+    cases as with
+    | nil => simp [zipAll] at h
+    | cons s ss =>
+      simp only [zipAll, Bool.and_eq_true] at h ⊢
+      exact ⟨h.1.2, ih ss h.2⟩
+
 theorem zipAll_map_right (P : Media → Media → Bool) (f : Media → Media) (hf : ∀ o s, P o (f s) = P o s)
     (secs l : List Media) : zipAll P secs (l.map f) = zipAll P secs l := by
   induction secs generalizing l with
@@ -598,31 +620,29 @@ theorem reinvite_audio_formats_offered (c : Cfg) (remote : List Media) (hasLocal
   have hcp : (codecPart c .audio remote hasLocal mid).1 = caps.map (fun a => natStr a.pt) := by
     simp [codecPart, h, applyAudioCaps]
   unfold reinviteAudioCaps at h
+  dsimp only at h
   split at h
   · cases h
-  · dsimp only at h
+  · rename_i r hr
     split at h
     · cases h
-    · rename_i r hr
-      split at h
-      · cases h
-      · simp only [Option.some.injEq] at h
-        subst h
-        have hmem : r ∈ remote ∧ r.kind = .audio ∧ (mid = [] ∨ r.mid = mid) := by
-          split at hr
-          · rename_i hm
-            have := List.find?_some hr
-            exact ⟨List.mem_of_find?_eq_some hr, by simpa using this, Or.inl (by simpa using hm)⟩
-          · have := List.find?_some hr
-            simp only [Bool.and_eq_true, decide_eq_true_eq] at this
-            exact ⟨List.mem_of_find?_eq_some hr, this.1, Or.inr this.2⟩
-        refine ⟨r, hmem.1, hmem.2.1, hmem.2.2, ?_⟩
-        intro f hf
-        rw [hcp] at hf
-        obtain ⟨a, ha, rfl⟩ := List.mem_map.mp hf
-        obtain ⟨f', hf', hp⟩ := deriveAnswerAudio_pt r c.audioCaps a ha
-        rw [hcanon r hmem.1 f' hf' a.pt hp]
-        exact hf'
+    · simp only [Option.some.injEq] at h
+      subst h
+      have hmem : r ∈ remote ∧ r.kind = .audio ∧ (mid = [] ∨ r.mid = mid) := by
+        split at hr
+        · rename_i hm
+          have := List.find?_some hr
+          exact ⟨List.mem_of_find?_eq_some hr, by simpa using this, Or.inl (by simpa using hm)⟩
+        · have := List.find?_some hr
+          simp only [Bool.and_eq_true, decide_eq_true_eq] at this
+          exact ⟨List.mem_of_find?_eq_some hr, this.1, Or.inr this.2⟩
+      refine ⟨r, hmem.1, hmem.2.1, hmem.2.2, ?_⟩
+      intro f hf
+      rw [hcp] at hf
+      obtain ⟨a, ha, rfl⟩ := List.mem_map.mp hf
+      obtain ⟨f', hf', hp⟩ := deriveAnswerAudio_pt r c.audioCaps a ha
+      rw [hcanon r hmem.1 f' hf' a.pt hp]
+      exact hf'
 
 
 /-! ### RTX strip and echo -/
